@@ -4,6 +4,7 @@ set -e
 cd "$(dirname "$0")/harness"
 export GOFLAGS=-mod=mod GOPROXY=off GOSUMDB=off GOTOOLCHAIN=local
 mkdir -p ../.build ../evidence ../replays
+go run ./tools/gentypes /repo/types.go c20/zz_types_test.go
 for d in c*/; do
   d=${d%/}
   go test -c -tags verif -vet=off -o ../.build/$d.test ./$d >/dev/null
